@@ -2,7 +2,7 @@ SPECIFICATION TSpec
 CONSTANTS
   Threads = {"t1", "t2"}
   Fixed = {"queue-distributor-len", "set-producer-lock", "set-equal-other", "collector-resolve-copy"}
-  JudgeHandedOut = FALSE
+  JudgeHandedOut = TRUE
   OnlyComps = {}
   EmitObligations = FALSE
 CONSTRAINT HighWater
